@@ -56,7 +56,7 @@ def fields_read_into(body, cfg, pr, operands):
             return
         seen.add(l)
         locs.add(l)
-        for kind, d in pr.defs_all().get(l, []):
+        for kind, d, _bi, _fp in pr.defs_all().get(l, []):
             if kind == 'stmt':
                 for o in d.rv_operands():
                     if o.place is not None:
